@@ -30,6 +30,7 @@ func c13Nums() []c13Arg {
 		{nl(2147483647), "2^31-1"}, {nl(2147483648), "2^31"}, {nl(1000000000000000), "1e15"}, {nl(9007199254740993), "2^53+1"},
 		{gen.Binary{Op: "/", L: nl(0), R: z, T: tNum}, "NaN"}, {gen.Binary{Op: "/", L: nl(1), R: z, T: tNum}, "+Inf"}, {gen.Binary{Op: "/", L: nl(-1), R: z, T: tNum}, "-Inf"},
 		{gen.Binary{Op: "*", L: z, R: nl(-1), T: tNum}, "-0"}, {call("pow", tNum, nl(10), nl(300)), "1e300"}, {nl(0.000000001), "1e-9"}, {nl(360), "360"}, {nl(100), "100"},
+		{nl(-0.5), "-0.5"}, {nl(-0.4), "-0.4"}, {nl(0.49999999999999994), "0.5-ulp"}, {nl(4503599627370497), "2^52+1"}, {nl(-1.5), "-1.5"}, {nl(-3.5), "-3.5"}, {nl(0.1), "0.1"},
 	}
 }
 
@@ -56,6 +57,7 @@ func c13Calls() []c13Case {
 		return []gen.Stmt{gen.Decl{Name: "r", T: e.Ty(), Init: e}, printCall(call("repr", tStr, toAny(vr("r", e.Ty()))), vr("err", tBool), call("repr", tStr, toAny(vr("errmsg", tStr))))}
 	}
 	add := func(what string, e gen.Expr) { out = append(out, c13Case{show(e), what}) }
+	var stmtLater []c13Case
 	nums, strs := c13Nums(), c13Strs()
 	for _, f := range []string{"abs", "floor", "ceil", "round", "log", "sqrt", "sin", "cos"} {
 		for _, a := range nums {
@@ -131,6 +133,22 @@ func c13Calls() []c13Case {
 	for _, f := range []string{"100%%", "%v and %v", "no verbs", "%v", "%v %v", "%d", "%x", "%5%", "%", "a%vb%qc", "%%%v%%"} {
 		add("sprintf("+f+",2 args)", call("sprintf", tStr, toAny(sl(f)), toAny(nl(1)), toAny(sl("two"))))
 		add("sprintf("+f+",0 args)", call("sprintf", tStr, toAny(sl(f))))
+	}
+	// %% consumes no argument, wherever it stands
+	for k, fa := range []struct {
+		f    string
+		args []gen.Expr
+	}{
+		{"%% %s %v", []gen.Expr{sl("a"), nl(1)}}, {"%v%% done, %s left, %f", []gen.Expr{nl(1), sl("x"), nl(2)}}, {"100%% %s", []gen.Expr{nl(5)}}, {"%%%q%%%t%%", []gen.Expr{sl("q"), gen.BoolLit{V: true}}},
+		{"%%%%%s", []gen.Expr{sl("z")}}, {"%5.1f%%|%-4s|%%", []gen.Expr{nl(2.25), sl("ab")}}, {"%% %t", []gen.Expr{sl("not a bool")}}, {"%s %% %f", []gen.Expr{sl("s"), sl("not a num")}},
+	} {
+		args := []gen.Expr{toAny(sl(fa.f))}
+		for _, a := range fa.args {
+			args = append(args, toAny(a))
+		}
+		add(fmt.Sprintf("sprintf-percent-%d(%s)", k, fa.f), call("sprintf", tStr, args...))
+		stmtLater = append(stmtLater, c13Case{[]gen.Stmt{gen.CallStmt{C: call("printf", gen.TNone, args...)}, printCall(sl("|after"))}, fmt.Sprintf("printf-percent-%d(%s)", k, fa.f)},
+			c13Case{[]gen.Stmt{gen.CallStmt{C: call("test", gen.TNone, append([]gen.Expr{toAny(nl(1)), toAny(nl(2))}, args...)...)}}, fmt.Sprintf("test-percent-%d(%s)", k, fa.f)})
 	}
 	// procedures and program control
 	stmt := func(what string, ss ...gen.Stmt) {
@@ -211,6 +229,7 @@ func c13Calls() []c13Case {
 		}
 		out = append(out, c13Case{ss, "err-protocol " + strings.Join(sq, ",")})
 	}
+	out = append(out, stmtLater...)
 	return out
 }
 
